@@ -433,6 +433,12 @@ func drawCase(t *rapid.T) *Case {
 			n = 0
 		}
 		var args []Arg
+		if prev := len(c.Execs) - 1; prev >= 0 && len(c.Execs[prev]) == n && rapid.IntRange(0, 9).Draw(t, "identical") == 0 {
+			// the very same argument list again: the second execution with
+			// identical arguments must answer like the first
+			c.Execs = append(c.Execs, append([]Arg(nil), c.Execs[prev]...))
+			continue
+		}
 		if prev := len(c.Execs) - 1; prev >= 0 && len(c.Execs[prev]) == n && len(phCols) > 0 && rapid.IntRange(0, 9).Draw(t, "neighbour") < 4 {
 			// the previous argument list with exactly one referenced position
 			// changed (usually the highest one)
